@@ -208,8 +208,10 @@ def accept_report(result, cat, findings, sections, overview, headings=None):
     total = sum(len(lines) for _, entries in findings.items for _, lines in entries)
     pre, suf = overview
     head = pre + (str(total) + suf if suf is not None else '\n')     # the QA overview has no total; it is followed by a line feed
+    if not text.startswith(head) and suf is not None and text.startswith(pre + format(total, ',') + suf):
+        head = pre + format(total, ',') + suf         # the same number written with thousands separators is the same total
     if not text.startswith(head):
-        m = re.match(re.escape(pre) + r'(\d+)', text) if suf is not None else None
+        m = re.match(re.escape(pre) + r'(\d[\d,]*)', text) if suf is not None else None
         if m:
             return False, 'overview prints total %s, the report lists %d entries' % (m.group(1), total)
         return False, 'report does not start with the overview'
